@@ -83,19 +83,16 @@ def pan3_task_construction(ctx):
 # ------------------------------------------------------------------------------------ ERV
 ERV2_SCOPE = ['LocustDB::run_query', 'LocustDB::load_csv', 'LocustDB::search_column_names',
               'InnerLocustDB::schedule_query_column_names', 'InnerLocustDB::query_column_names',
+              'InnerLocustDB::column_names_task',
               'QueryTask::new', 'QueryTask::run', 'QueryTask::combine_results',
               'QueryTask::push_result', 'QueryTask::fail_with', 'QueryTask::fail_with_no_lock',
               'QueryTask::convert_to_output_format', '<FnTask<F, T> as Task>::execute',
               '<QueryTask as Task>::execute']
 ERV2_EXCEPTIONS = {
-    ('scheduler::inner_locustdb::InnerLocustDB::schedule_query_column_names',
+    ('scheduler::inner_locustdb::InnerLocustDB::column_names_task',
      'Result::unwrap<QueryTask, QueryError>'):
         'QueryTask::new on the built-in query `SELECT column_name FROM _meta_columns_<t>`: no '
         'aggregates, no star, normalisation cannot fail',
-    ('scheduler::inner_locustdb::InnerLocustDB::query_column_names',
-     'Result::unwrap<Result<QueryOutput, QueryError>, Canceled>'):
-        'internal catalogue query: Canceled only if a worker thread died earlier (the condition '
-        'the other rules exclude); the inner QueryError is propagated with ?',
     ('server::index::register::index::{closure#0}', 'Result::unwrap<Vec<TableStats>, Canceled>'):
         'statistics task has no failing path; Canceled only if a worker already died',
     ('server::tables::register::tables::{closure#0}', 'Result::unwrap<Vec<TableStats>, Canceled>'):
